@@ -481,6 +481,16 @@ func (el *EventList) Verify(acc *Accumulator) error {
 	// Verify the hashes of the chain, computing the product of all revoked attributes along the way
 	startIndex := events[0].Index
 	for i, event := range events {
+		if i == 0 {
+			// The parent of the first event is not part of this list, so its hash cannot be
+			// recomputed; but it must be a well-formed hash: the hashed bytes of an event are
+			// index || parent hash || e, which is unambiguous only if the parent hash has the
+			// length its algorithm prescribes.
+			if _, err = event.ParentHash.Algorithm(); err != nil {
+				el.validationErr = errors.WrapPrefix(err, "event chain element 0 has malformed parent hash", 0)
+				return el.validationErr
+			}
+		}
 		if i != 0 {
 			if err = events[i-1].hashEquals(event.ParentHash); err != nil {
 				el.validationErr = errors.WrapPrefix(
